@@ -258,6 +258,7 @@ const EnumTypeDefinition *Context::getEnumDefinition(const std::string &name, bo
     for (const auto &e : enums) {
         if (e->name == name) return e.get();
     }
+    if (isCompositeCtx && parent != nullptr) return parent->getEnumDefinition(name, global);
     if (global && parent != nullptr) return getGlobalContext()->getEnumDefinition(name);
     return nullptr;
 }
@@ -266,6 +267,7 @@ const PointerTypeDefinition *Context::getPointerDefinition(const std::string &na
     for (const auto &p : pointers) {
         if (p->name == name) return p.get();
     }
+    if (isCompositeCtx && parent != nullptr) return parent->getPointerDefinition(name, global);
     if (global && parent != nullptr) return getGlobalContext()->getPointerDefinition(name);
     return nullptr;
 }
@@ -274,6 +276,7 @@ const CompositeTypeDefinition *Context::getCompositeDefinition(const std::string
     for (const auto &c : composites) {
         if (c->name == name) return c.get();
     }
+    if (isCompositeCtx && parent != nullptr) return parent->getCompositeDefinition(name, global);
     if (global && parent != nullptr) return getGlobalContext()->getCompositeDefinition(name);
     return nullptr;
 }
